@@ -16,6 +16,11 @@ var h02Bounds = map[string]string{
 	"outside": "lengths above L, MaxTrials above T, custom strings outside the probe lists; the pre-flight refusal (MaxFailRate is set to 1 by the harness) is C13's subject",
 }
 
+var h04Bounds = map[string]string{
+	"H04":     "word lists: nine concrete lists of 1, 2, 3, 5, 7 words (ASCII, non-ASCII, with a word that does not change under title-casing, with a pre-capitalised word, with the empty word); Length 1..L (quick 2, thorough 4) and, on the first two lists with every scheme except 'random', Length 64..66 (thorough 63..70); the five capitalisation schemes and one unknown scheme string; separators: constant \"\", \"-\", \"→\", SFNone, SFDigits1, SFDigitsNoAmbiguous2 and a constructed function over the alphabet é✓!; every draw symbolic",
+	"outside": "lists of more than 7 words enter only through the bound n = Size(), which C01 covers for every n; lengths above L (in particular above 64); the 18 328-word shipped list is exercised concretely in C16",
+}
+
 func propSpecs() map[string]*PropSpec {
 	specs := []*PropSpec{
 		{
@@ -55,6 +60,24 @@ func propSpecs() map[string]*PropSpec {
 					Reach: []string{"returned", "accepted", "accepted-after-retry"}},
 			},
 			Bounds: h02Bounds,
+			Assume: append([]string{"bounded draws are summarised by the kernel contract verified by C01"}, commonAssume...),
+		},
+		{
+			ID: "C04", Sub: "spg", Level: "model_checking",
+			Harnesses: []HSpec{
+				{Name: "H04", Quick: P{"L": 2}, Thorough: P{"L": 4}, Reach: []string{"returned", "structure", "capitalised"}},
+				{Name: "H04", Label: "long", Quick: P{"Lmin": 64, "L": 66, "lists": 2, "schemes": 5, "seps": 2}, Thorough: P{"Lmin": 63, "L": 70, "lists": 2, "schemes": 5, "seps": 2}, Reach: []string{"returned", "structure", "capitalised"}},
+			},
+			Bounds: h04Bounds,
+			Assume: append([]string{"bounded draws are summarised by the kernel contract verified by C01"}, commonAssume...),
+		},
+		{
+			ID: "C05", Sub: "spg", Level: "model_checking",
+			Harnesses: []HSpec{
+				{Name: "H04", Quick: P{"L": 2}, Thorough: P{"L": 4}, Reach: []string{"returned", "structure", "capitalised"}},
+				{Name: "H04", Label: "long", Quick: P{"Lmin": 64, "L": 66, "lists": 2, "schemes": 5, "seps": 2}, Thorough: P{"Lmin": 63, "L": 70, "lists": 2, "schemes": 5, "seps": 2}, Reach: []string{"returned", "structure", "capitalised"}},
+			},
+			Bounds: h04Bounds,
 			Assume: append([]string{"bounded draws are summarised by the kernel contract verified by C01"}, commonAssume...),
 		},
 		{
